@@ -20,6 +20,14 @@ claims={
   text="For every function under any contract (simd kernels and wrappers, Memmem family, sparse set, backtracker incl. the recursive explorers, slot table, lazy-DFA cache and state-ID algebra, onepass transition/slots, search-state recycling, enumeration loops): every index, slice, nil-dereference, division and signed-overflow obligation is discharged for all inputs (zero annotations needed for these), explicit panics are unreachable, loops terminate, reported spans satisfy at<=start<=end<=len and buffers are only written inside the declared frame.",
   note="Assumed: trusted leaf contracts (assembly kernels, PikeVM, lazy DFA search loops, dispatcher), stdlib specs, len<=2^47/2^48 size bounds written as preconditions, (*NFA).State modelled as an opaque immutable object. Compile, regex.go adapters and the assembly are not covered yet.",
   ref="DESIGN 6/C07"),
+ "C08": dict(
+  text="Proved for all inputs: extractTemplateRef implements regexp's template grammar ($name / ${name}: name = longest run of letters/digits/_, closing brace required, group number = decimal value of an all-digit name without leading zero, position of the rest); expand appends to dst without touching its prefix, stays inside src for every group the match vector describes, never writes outside dst; Split: n==0 -> nil, at most n pieces, n==1 -> the whole string, empty input rule, every piece is an in-order, non-overlapping substring of s; advancePastEmpty equals regexp's step over an empty match.",
+  note="Not yet under contract: the five ReplaceAll* loops (driven by FindIndicesAt/FindSubmatchAt), the byte-for-byte output of expand as a sequence (only its structure is proved), named-group lookup order. Assumed: strings.Cut, utf8.DecodeRuneInString, unicode.IsLetter/IsDigit specs, FindAllStringIndex shape.",
+  ref="DESIGN 6/C08"),
+ "C09": dict(
+  text="Proved for all inputs: QuoteMeta copies every byte and inserts a backslash exactly before the 14 characters regexp.QuoteMeta escapes (output length and every output position, via a recursive count spec), isSpecial; Compile/CompilePOSIX return a usable Regex exactly when the Perl (flags 212) / POSIX (flags 0) parser accepts the pattern, CompilePOSIX and Longest switch both the Regex and its engine to leftmost-longest.",
+  note="Assumed: regexp/syntax.Parse is the parser regexp uses (same package); meta.Compile/CompileRegexp shape. Not decided: error text equality, LiteralPrefix, SubexpNames/NumSubexp, MarshalText/UnmarshalText, Copy. Open known finding: default MaxRecursionDepth 100 rejects patterns nested deeper than 100 that regexp accepts (pinned by an existing test).",
+  ref="DESIGN 6/C09"),
  "C10": dict(
   text="Narrow: getSearchState is proved to copy the engine's longest flag into the owned backtracker state; Count/findAllIndicesLoop are proved against the reference in the engine's current mode (which exposed and led to the fix of the leftmost-first DFA shortcut in longest mode).",
   note="Assumed: leaf engines honour the mode (PikeVM.SetLongest, backtracker longest variant, dispatcher contract). Regex.Longest/Copy/CompilePOSIX not yet under contract.",
@@ -57,8 +65,6 @@ na_reason={
  "C01":"dispatch-layer contracts for IsMatch not built yet (leaf engines have no contract within reach; see DESIGN 6/C01)",
  "C02":"dispatch-layer contracts for FindIndices not built yet (currently an assumed contract used by C04)",
  "C06":"frame/ownership engine not built yet",
- "C08":"expand/replace/split contracts not built yet",
- "C09":"compile/metadata contracts not built yet",
  "C15":"UTF-8 range compiler contracts not built yet",
  "C17":"literal Seq algebra contracts not built yet",
  "C19":"specialised searcher contracts not built yet",
